@@ -1,0 +1,29 @@
+//go:build verif
+
+package types
+
+// Machine-checked contracts, read by the govc verifier under /verif. Comment-only.
+//
+// closer(l, r, t) is the order property C18 asks for: contacts with a known ID come before contacts
+// without one; two known IDs are ranked by XOR distance to t (as unsigned 160-bit integers); ties
+// are broken by address and then port, which makes the order total.
+
+//@ spec def closer(l types.AddrMaybeId, r types.AddrMaybeId, t int160.T) bool = (l.Id.Ok && !r.Id.Ok) || (l.Id.Ok == r.Id.Ok && l.Id.Ok && ult(l.Id.Value.bits ^ t.bits, r.Id.Value.bits ^ t.bits)) || (l.Id.Ok == r.Id.Ok && (!l.Id.Ok || (l.Id.Value.bits ^ t.bits) == (r.Id.Value.bits ^ t.bits)) && (addrcmp(l.Addr.AddrPort.ip, r.Addr.AddrPort.ip) == -1 || (addrcmp(l.Addr.AddrPort.ip, r.Addr.AddrPort.ip) == 0 && l.Addr.AddrPort.port < r.Addr.AddrPort.port)))
+
+// an absent ID carries the zero value (generics.Option's documented invariant); needed for totality
+//@ spec def wfami(x types.AddrMaybeId) bool = !x.Id.Ok ==> x.Id.Value.bits == 0
+
+//@ func (dht/types.AddrMaybeId).CloserThan
+//@   ensures closer: result == closer(l, r, target)
+
+//@ lemma closer-irreflexive: forall x types.AddrMaybeId :: forall t int160.T :: !closer(x, x, t)
+//@ lemma closer-asymmetric: forall x, y types.AddrMaybeId :: forall t int160.T :: closer(x, y, t) ==> !closer(y, x, t)
+//@ lemma closer-transitive: forall x, y, z types.AddrMaybeId :: forall t int160.T :: closer(x, y, t) && closer(y, z, t) ==> closer(x, z, t)
+//@ lemma closer-total: forall x, y types.AddrMaybeId :: forall t int160.T :: wfami(x) && wfami(y) && x != y ==> closer(x, y, t) || closer(y, x, t)
+//@ lemma closer-known-first: forall x, y types.AddrMaybeId :: forall t int160.T :: x.Id.Ok && !y.Id.Ok ==> closer(x, y, t) && !closer(y, x, t)
+//@ lemma closer-by-distance: forall x, y types.AddrMaybeId :: forall t int160.T :: x.Id.Ok && y.Id.Ok && ult(x.Id.Value.bits ^ t.bits, y.Id.Value.bits ^ t.bits) ==> closer(x, y, t)
+
+// XOR metric laws (over the bit-vector reading of IDs that Distance is proved to compute)
+//@ lemma xor-symmetric: forall a, b int160.T :: (a.bits ^ b.bits) == (b.bits ^ a.bits)
+//@ lemma xor-zero-iff-equal: forall a, b int160.T :: ((a.bits ^ b.bits) == 0) == (a == b)
+//@ lemma xor-triangle-unique: forall a, b, c int160.T :: (a.bits ^ c.bits) == (b.bits ^ c.bits) ==> a == b
